@@ -178,9 +178,14 @@ def replay_dispatch(w):
     log = []
     orig = sf.FortranReader
 
+    import inspect
+    sig = inspect.signature(orig.__init__)
+
     class Spy:
-        def __init__(self, path, *a, **k):
-            log.append((path.rsplit("/", 1)[-1], a[4] if len(a) > 4 else k.get("fixed")))
+        def __init__(self, *a, **k):
+            b = sig.bind(None, *a, **k)
+            b.apply_defaults()
+            log.append(dict(b.arguments))
             self._r = iter(())
 
         def __iter__(self):
@@ -188,15 +193,27 @@ def replay_dispatch(w):
 
         def __next__(self):
             raise StopIteration
+    import os, tempfile, shutil, io, contextlib
+    import ford.fortran_project as fp
+    from ford.settings import ProjectSettings
+    d = tempfile.mkdtemp(prefix="fvc14-")
+    with open(os.path.join(d, "unit." + w["ext"]), "w") as f:
+        f.write("      subroutine s()\n      end subroutine s\n")
+    marks = w.get("marks") or ["!", ">", "*", "|"]
     sf.FortranReader = Spy
     try:
-        _ph.project_concrete({"unit." + w["ext"]: ["subroutine s()", "end subroutine s"]}, preprocess=False)
+        with contextlib.redirect_stdout(io.StringIO()), contextlib.redirect_stderr(io.StringIO()):
+            fp.Project(ProjectSettings(src_dir=[__import__("pathlib").Path(d)], preprocess=False, quiet=True, parallel=0, dbg=True,
+                                       fixed_length_limit=w.get("fixed_length_limit", True), docmark=marks[0], predocmark=marks[1],
+                                       docmark_alt=marks[2], predocmark_alt=marks[3]))
     except Exception:  # noqa
         pass
     finally:
         sf.FortranReader = orig
-    got = [f for n, f in log]
-    return got != [w["fixed"]], {"file": "unit." + w["ext"], "read as fixed form": got, "fixed_extensions say": w["fixed"]}
+        shutil.rmtree(d, ignore_errors=True)
+    got = [(bool(a_.get("fixed")), a_.get("length_limit"), [a_.get("docmark"), a_.get("predocmark"), a_.get("docmark_alt"), a_.get("predocmark_alt")]) for a_ in log]
+    want = [(w["fixed"], w.get("fixed_length_limit", True), list(marks))]
+    return got != want, {"file": "unit." + w["ext"], "reader created with (fixed, length_limit, marks)": got, "settings say": want}
 
 
 @obligation("C14", "O3.extension-decides-the-form", engine="SX(CV)", timeout=600)
@@ -214,13 +231,20 @@ def dispatch(ctx):
 
     def h(E):
         e = CV.choice(E, "ext", EXTS).concretize()   # a file name: one path per extension
-        E.e.snapshot = lambda m: {"ext": e[0], "fixed": e[1]}
+        limit = CV.choice(E, "fixed_length_limit", [True, False]).concretize()
+        marks = CV.choice(E, "marks", [("!", ">", "*", "|"), ("^", "<", "~", "#")]).concretize()
+        E.e.snapshot = lambda m: {"ext": e[0], "fixed": e[1], "fixed_length_limit": limit, "marks": list(marks)}
         log = []
-        _ph.project({"unit." + e[0]: ["subroutine s()", "end subroutine s"]}, reader_log=log)
+        _ph.project({"unit." + e[0]: ["subroutine s()", "end subroutine s"]}, reader_log=log, fixed_length_limit=limit,
+                    docmark=marks[0], predocmark=marks[1], docmark_alt=marks[2], predocmark_alt=marks[3])
         E.reachable("read")
         E.require(len(log) == 1, "the source file is not read exactly once")
         if log:
+            args = log[0][3]
             E.require(bool(log[0][1]) == e[1], "the file is read in the wrong source form")
+            E.require(args.get("length_limit") == limit, "the fixed_length_limit setting does not reach the reader")
+            E.require((args.get("docmark"), args.get("predocmark"), args.get("docmark_alt"), args.get("predocmark_alt")) == tuple(marks),
+                      "the documentation marks of the settings do not reach the reader")
 
     E = sym.Engine(ctx, max_paths=200, incremental=True)
     found = E.explore(h)
